@@ -90,57 +90,72 @@ def _offspec(draw):
 
 
 WEIGHTS = {
-    # statement kind weights per flavour
-    "canon": dict(mark=6, call=2, val=1, pure=3, const=1, dim=0, amin=0, alloc=1, subview=0, use=1, **{"for": 7, "if": 1}),
-    "reuse": dict(mark=3, call=1, val=1, pure=2, const=2, dim=3, amin=2, alloc=6, subview=4, use=5, **{"for": 6, "if": 1}),
-    "both": dict(mark=4, call=1, val=1, pure=2, const=1, dim=2, amin=1, alloc=4, subview=3, use=4, **{"for": 7, "if": 1}),
+    # weights of the non-control statement kinds per flavour ("tile" = subview + alloc sized by its dims + use, the shape the
+    # memory-space passes leave behind for reuse-memref-allocs)
+    "canon": dict(mark=8, call=2, val=1, pure=3, const=1, dim=0, amin=0, alloc=1, subview=0, use=1, tile=0),
+    "reuse": dict(mark=3, call=1, val=1, pure=2, const=2, dim=3, amin=2, alloc=5, subview=3, use=5, tile=5),
+    "both": dict(mark=4, call=1, val=1, pure=2, const=1, dim=2, amin=1, alloc=3, subview=2, use=4, tile=4),
 }
+OBSERVABLE = ("mark", "call", "val", "use", "for", "if")
+
+
+@st.composite
+def _simple(draw, kinds):
+    """One non-control statement group (a list of statements kept adjacent)."""
+    k = draw(st.sampled_from(kinds))
+    if k in ("mark", "call", "val"):
+        return [[k, draw(_vrefs(1, 2 if k != "mark" else 3))]]
+    if k == "pure":
+        return [["pure", draw(st.sampled_from(PURE_OPS)), draw(_vref()), draw(_vref())]]
+    if k == "const":
+        return [["const", draw(st.sampled_from([0, 1, 2, 3, 4, 8]))]]
+    if k == "dim":
+        return [["dim", draw(_mref()), draw(st.integers(0, 1))]]
+    if k == "amin":
+        return [["amin", draw(st.sampled_from([2, 3, 4, 8])), draw(st.integers(0, 2)), draw(st.sampled_from([False] * 7 + [True]))]]
+    if k == "alloc":
+        return [["alloc", draw(st.lists(_sizespec(), min_size=1, max_size=2))]]
+    if k == "subview":
+        return [["subview", draw(_mref()), [[draw(_offspec()), draw(_sizespec())] for _ in range(2)]]]
+    if k == "use":
+        return [["use", draw(st.lists(_mref(), min_size=1, max_size=2)), draw(_vrefs(0, 2))]]
+    # tile: view of some memref, a buffer sized by the view's dimensions (or a static / other size), a use of both
+    sv = ["subview", draw(_mref()), [[draw(_offspec()), draw(_sizespec())] for _ in range(2)]]
+    sizes = [draw(st.sampled_from([["d", -1, j]] * 4 + [["s", 4], ["v", draw(_vref())]])) for j in range(draw(st.integers(1, 2)))]
+    grp = [sv, ["alloc", sizes], ["use", [-2, -1], draw(_vrefs(0, 1))]]
+    if draw(st.sampled_from([False, False, True])):
+        grp.append(["mark", [draw(_vref())]])
+    return grp
 
 
 def _block(flavour, depth, budget):
-    w = WEIGHTS[flavour]
+    kinds = [k for k, wt in WEIGHTS[flavour].items() for _ in range(wt)]
 
     @st.composite
-    def block(draw, depth=depth, budget=budget, top=False):
-        n = draw(st.integers(1, max(1, min(5 if top else 4, budget))))
-        out = []
-        for _ in range(n):
-            kinds = []
-            for k, wt in w.items():
-                if k in ("for", "if") and depth <= 0:
-                    continue
-                kinds += [k] * wt
-            k = draw(st.sampled_from(kinds))
-            if k in ("mark", "call", "val"):
-                out.append([k, draw(_vrefs(1, 2 if k != "mark" else 3))])
-            elif k == "pure":
-                out.append(["pure", draw(st.sampled_from(PURE_OPS)), draw(_vref()), draw(_vref())])
-            elif k == "const":
-                out.append(["const", draw(st.sampled_from([0, 1, 2, 3, 4, 8]))])
-            elif k == "dim":
-                out.append(["dim", draw(_mref()), draw(st.integers(0, 1))])
-            elif k == "amin":
-                out.append(["amin", draw(st.sampled_from([2, 3, 4, 8])), draw(st.integers(0, 2)), draw(st.sampled_from([False] * 7 + [True]))])
-            elif k == "alloc":
-                out.append(["alloc", draw(st.lists(_sizespec(), min_size=1, max_size=2))])
-            elif k == "subview":
-                out.append(["subview", draw(_mref()), [[draw(_offspec()), draw(_sizespec())] for _ in range(2)]])
-            elif k == "use":
-                out.append(["use", draw(st.lists(_mref(), min_size=1, max_size=2)), draw(_vrefs(0, 2))])
-            elif k == "for":
-                hdr = draw(_hdr(flavour))
-                body = draw(block(depth=depth - 1, budget=max(1, budget // 2)))
-                carried = []
-                c = draw(st.sampled_from(["none"] * 17 + ["i", "i", "m"]))
-                if c == "i":
-                    carried = [["i", draw(_vref()), draw(_vref())]]
-                elif c == "m":
-                    carried = [["m", draw(_mref()), draw(_mref())]]
-                out.append(["for", hdr, body, carried])
-            else:
-                th = draw(block(depth=depth - 1, budget=max(1, budget // 2)))
-                el = draw(st.one_of(st.just([]), block(depth=depth - 1, budget=max(1, budget // 2))))
-                out.append(["if", [draw(st.sampled_from([0, 1, 2, 4])), draw(_vref()), draw(_vref())], th, el])
+    def block(draw, depth=depth, budget=budget, top=False, inloop=False):
+        nfor = draw(st.sampled_from([1, 1, 1, 2] if top else [0, 0, 1, 1, 1, 2])) if depth > 0 else 0
+        nif = draw(st.sampled_from([0] * 7 + [1])) if depth > 0 else 0
+        nother = draw(st.integers(0 if nfor + nif else 1, max(1, min(4, budget))))
+        groups = [draw(_simple(kinds)) for _ in range(nother)]
+        for _ in range(nfor):
+            hdr = draw(_hdr(flavour))
+            body = draw(block(depth=depth - 1, budget=max(1, budget // 2), inloop=True))
+            carried = []
+            c = draw(st.sampled_from(["none"] * 17 + ["i", "i", "m"]))
+            if c == "i":
+                carried = [["i", draw(_vref()), draw(_vref())]]
+            elif c == "m":
+                carried = [["m", draw(_mref()), draw(_mref())]]
+            groups.append([["for", hdr, body, carried]])
+        for _ in range(nif):
+            th = draw(block(depth=depth - 1, budget=max(1, budget // 2), inloop=inloop))
+            el = draw(st.one_of(st.just([]), block(depth=depth - 1, budget=max(1, budget // 2), inloop=inloop)))
+            groups.append([["if", [draw(st.sampled_from([0, 1, 2, 4])), draw(_vref()), draw(_vref())], th, el]])
+        if len(groups) > 1:
+            groups = draw(st.permutations(groups))
+        out = [s for g in groups for s in g]
+        if inloop and not any(s[0] in OBSERVABLE for s in out):
+            out.append(["mark", [draw(_vref())]])
         return out
 
     return block
@@ -181,9 +196,6 @@ def program(draw, tier="quick", flavour="canon"):
     mems = [[draw(st.sampled_from([0, 0, 0, 4, 16])) for _ in range(draw(st.integers(1, 2)))] for _ in range(nmem)]
     consts = draw(st.lists(st.sampled_from([0, 1, 2, 3, 4, 8]), min_size=1, max_size=3, unique=True))
     body = draw(_block(flavour, depth, budget)(top=True))
-    if count_loops(body) == 0:
-        # the property is about loops: wrap a loop-free body into one
-        body = [["for", draw(_hdr(flavour)), body, []]]
     inputs = draw(_inputs(nidx, mems, count_loops(body), 2))
     return dict(nidx=nidx, mems=mems, consts=consts, body=body, inputs=inputs,
                 inline_idx=draw(st.sampled_from([False, False, False, True])))
